@@ -177,6 +177,50 @@ Section Builder.
     - cbn [res_all]. apply K; [exact B3|reflexivity].
   Qed.
 
+  (* the same without the hypothesis that the block has run all its code: the close runs it; a
+     failing run puts the popped context back *)
+  Lemma close_meta_inv_gen t : binv t -> cmode (cx t) = MMeta -> res_all binv (context_close fo rf t).
+  Proof.
+    intros HB Hmode. pose proof HB as [C B].
+    destruct (chain_meta b m Hm t C Hmode) as (MO0 & prev & rest & En & ms & Ems & Fms).
+    unfold context_close. rewrite En. cbv zeta. st_simpl. rewrite Hmode.
+    pose proof (run_m_frame (set_nested t rest)) as FR.
+    destruct (run_m fo rf (set_nested t rest)) as [u s1|k p s1| |]; cbn [res_all] in FR; try exact I.
+    - assert (N1 : nested s1 = rest) by (destruct FR as (_ & _ & _ & A4 & _); exact A4).
+      apply frame_rel_nested in FR.
+      destruct (binv_frame b m Hm t _ HB Hmode FR) as [[C1 B1'] M1].
+      assert (B1 : binv0 s1) by (eapply binv0_same; [..|exact B1']; reflexivity).
+      destruct (chain_meta b m Hm _ C1 M1) as (MO & _).
+      change (cx (set_nested s1 (nested t))) with (cx s1) in MO, M1.
+      set (s2 := set_dbg (set_code s1 _) _).
+      destruct MO as (Mm & Md & Mc & Mr & Mf & Ml & Ms & Mi).
+      assert (B2 : binv0 s2).
+      { destruct B1 as [H1 H2 H3 H4 H5 H6 H7 H8 H9 H10 H11 H12]. subst s2. constructor; st_simpl; try assumption.
+        - apply kprefix_firstn; assumption.
+        - apply prefix_firstn; [assumption|]. rewrite Hdl. exact Mc.
+        - rewrite !firstn_length. st_simpl_in H3. lia. }
+      set (s3 := set_dict s2 _).
+      assert (B3 : binv0 s3).
+      { destruct B2 as [H1 H2 H3 H4 H5 H6 H7 H8 H9 H10 H11 H12]. subst s3. constructor; st_simpl; try assumption.
+        apply purge_dict_prefix; assumption. }
+      assert (MO3 : meta_ok b (cx s3)) by (repeat split; assumption).
+      assert (K : forall s4, binv0 s4 -> nested s4 = rest -> binv (set_cx s4 prev)).
+      { intros s4 B4 N4. split.
+        - exists ms. st_simpl. rewrite N4. split; assumption.
+        - eapply binv0_same; [..|exact B4]; reflexivity. }
+      match goal with |- context [if ?c then _ else _] => destruct c end.
+      + match goal with |- context [emit_results ?n s3] =>
+          pose proof (emit_results_inv n s3 B3 MO3) as X;
+          destruct (emit_results n s3) as [u4 s4|k p s4| |] end;
+          cbv beta iota; cbn [res_all]; try exact I; [|contradiction].
+        destruct X as (X1 & X2 & X3). apply K; [exact X1|]. rewrite X3. exact N1.
+      + cbn [res_all]. apply K; [exact B3|exact N1].
+    - assert (N1 : nested s1 = rest) by (destruct FR as (_ & _ & _ & A4 & _); exact A4).
+      apply frame_rel_nested in FR.
+      destruct (binv_frame b m Hm t _ HB Hmode FR) as [HB1 _].
+      rewrite N1, <- En. exact HB1.
+  Qed.
+
   (* ---------- the tactic ---------- *)
   Ltac lens_of H :=
     let L := fresh "L" in
@@ -454,13 +498,141 @@ Section Builder.
   Lemma bp_build_let_in f : bp (build_let_in pr f).
   Proof. exact (proj1 (bp_build_let f)). Qed.
 
+  (* ---------- enum ---------- *)
+  Lemma bp_i_enum : bp (i_enum pr).
+  Proof. unfold i_enum, def_immediate, i_nested_begin. bp_solve. Qed.
+
+  (* the field words act on the enum entry on top of the flow stack and, for `=`, on the data
+     stack of the context the closed inner block returns to: harmless when that entry is
+     pending in a meta context (it is whenever the enum was opened by the same source) *)
+  Definition enum_field_bad (t : state) : bool :=
+    match i_nested_end fo rf t with
+    | ROk _ t1 => negb (has_pending_flow t1 && mode_eqb (cmode (cx t1)) MMeta)
+    | _ => false
+    end.
+
+  (* `endenum` first closes the block it is in and then looks at the data stack of the context
+     it returned to.  When that is not a meta context (an `endenum` without `enum`, inside a
+     meta block) its data-stack mark, hence the outcome of the check, depends on the drive mode
+     (finding E3): the watch reports it.  (The second close of `endenum` may run code that the
+     enum's outer context still holds; since the repair of D37 a failure of that run puts the
+     popped context back, so this is no longer a situation the watch has to report.) *)
+  Definition enum_close_bad (t : state) : bool :=
+    match i_nested_end fo rf t with
+    | ROk _ t1 => negb (mode_eqb (cmode (cx t1)) MMeta)
+    | _ => false
+    end.
+
+  Lemma next_name_keeps t :
+    res_all (fun t1 => cx t1 = cx t /\ flows t1 = flows t) (next_name pr t).
+  Proof.
+    assert (K : forall fuel t, res_all (fun t1 => cx t1 = cx t /\ flows t1 = flows t) (next_token pr fuel t)).
+    { induction fuel as [|f IH]; intros t0; cbn [next_token]; [exact I|].
+      destruct (input t0) as [|il rest]; [split; reflexivity|]. cbv zeta.
+      destruct (lex_next_nonws _ _) as [tk l'].
+      destruct tk; try exact I; try (split; reflexivity).
+      - match goal with |- context [next_token pr f ?x] => specialize (IH x); destruct (next_token pr f x) end;
+          cbn [res_all] in *; auto.
+      - destruct (pr text); split; reflexivity. }
+    unfold next_name. cbv zeta. specialize (K (tok_fuel t) t). fold (get_token pr t) in K.
+    destruct (get_token pr t) as [tk t1|k p t1| |]; cbn [res_all] in *; auto.
+    destruct tk; cbn [res_all]; try exact K; destruct (last_tok t); exact K.
+  Qed.
+
+  Lemma enum_add_field_inv nm val t : binv t -> has_pending_flow t = true ->
+    res_all binv (enum_add_field nm val t).
+  Proof.
+    intros H P. unfold enum_add_field. unfold bind at 1. unfold get.
+    destruct (flows t) as [|f r] eqn:Ef; [exact H|]. destruct f; try exact H.
+    destruct (val fields) as [v|]; [|exact H].
+    cbv zeta. unfold bind at 1. unfold put.
+    assert (X : bp (let* _ := dict_insert nm (DConst (CInt v)) in i_nested_begin))
+      by (unfold i_nested_begin; bp_solve).
+    apply X.
+    unfold has_pending_flow in P. apply Nat.ltb_lt in P.
+    pose proof (binv_set_pending b m t (FEnum name (fields ++ [(nm, v)]) :: tl (pending t)) H) as Y.
+    assert (Ep : pending t = FEnum name fields :: tl (pending t)).
+    { unfold pending. rewrite Ef in *. cbn [length] in *.
+      destruct (S (length r) - fs_len (cx t)) as [|k] eqn:Ek; [lia|]. reflexivity. }
+    assert (F : Forall (flow_ok b) (FEnum name (fields ++ [(nm, v)]) :: tl (pending t))).
+    { pose proof (binv_pending b m t H) as F0. rewrite Ep in F0. inversion F0; subst.
+      constructor; [exact I|assumption]. }
+    specialize (Y F).
+    assert (E2 : flows t = pending t ++ skipn (length (pending t)) (flows t)).
+    { unfold pending. rewrite firstn_length, Nat.min_l by lia. symmetry. apply firstn_skipn. }
+    set (rest := skipn (length (pending t)) (flows t)) in *.
+    rewrite Ef, Ep in E2. cbn [app] in E2. injection E2 as E2.
+    rewrite E2. exact Y.
+  Qed.
+
+  Lemma pending_keeps t t1 : cx t1 = cx t -> flows t1 = flows t -> has_pending_flow t1 = has_pending_flow t.
+  Proof. unfold has_pending_flow. intros -> ->. reflexivity. Qed.
+
+  Lemma i_enum_field_inv t : binv t -> quiet t -> enum_field_bad t = false ->
+    res_all binv (i_enum_field fo pr rf t).
+  Proof.
+    intros H Q EB. unfold i_enum_field. unfold bind at 1. unfold enum_field_bad in EB.
+    pose proof (i_nested_end_inv t H Q) as X.
+    destruct (i_nested_end fo rf t) as [u t1|k p t1| |]; cbn [res_all] in *; auto.
+    apply negb_false_iff, andb_true_iff in EB. destruct EB as [P1 _].
+    unfold bind at 1. pose proof (bp_next_name t1 X) as Y. pose proof (next_name_keeps t1) as K.
+    destruct (next_name pr t1) as [nm t2|k p t2| |]; cbn [res_all] in *; auto.
+    apply enum_add_field_inv; [exact Y|]. destruct K as [K1 K2]. rewrite (pending_keeps _ _ K1 K2). exact P1.
+  Qed.
+
+  Lemma i_enum_field_set_inv t : binv t -> quiet t -> enum_field_bad t = false ->
+    res_all binv (i_enum_field_set fo pr rf t).
+  Proof.
+    intros H Q EB. unfold i_enum_field_set. unfold bind at 1. unfold enum_field_bad in EB.
+    pose proof (i_nested_end_inv t H Q) as X.
+    destruct (i_nested_end fo rf t) as [u t1|k p t1| |]; cbn [res_all] in *; auto.
+    apply negb_false_iff, andb_true_iff in EB. destruct EB as [P1 E]. apply mode_eqb_meta in E.
+    unfold bind at 1. pose proof (wl_frame _ _ wl_pop_data t1) as FR.
+    destruct (pop_data t1) as [c t2|k p t2| |]; cbn [res_all] in *; try exact I;
+      [|exact (proj1 (binv_frame b m Hm _ _ X E FR))].
+    pose proof (proj1 (binv_frame b m Hm _ _ X E FR)) as H2.
+    assert (P2 : has_pending_flow t2 = true).
+    { unfold has_pending_flow in *. destruct FR as (_ & _ & F3 & _ & _ & _ & _ & _ & _ & _ & F11 & _).
+      rewrite F3, F11. destruct (cx t1); exact P1. }
+    unfold bind at 1. unfold m_xint. destruct (value c); try exact H2. unfold ret.
+    unfold bind at 1. pose proof (bp_next_name t2 H2) as Y. pose proof (next_name_keeps t2) as K.
+    destruct (next_name pr t2) as [nm t3|k p t3| |]; cbn [res_all] in *; auto.
+    apply enum_add_field_inv; [exact Y|]. destruct K as [K1 K2]. rewrite (pending_keeps _ _ K1 K2). exact P2.
+  Qed.
+
+  Lemma i_nested_end_inv_gen t : binv t -> res_all binv (i_nested_end fo rf t).
+  Proof.
+    intros H. unfold i_nested_end, bind, get.
+    destruct (mode_eqb (cmode (cx t)) MMeta) eqn:E; cbn [negb]; [|exact H].
+    apply mode_eqb_meta in E.
+    destruct (has_pending_flow t) eqn:P; [exact H|].
+    apply close_meta_inv_gen; auto.
+  Qed.
+
+  Lemma i_endenum_inv t : binv t -> quiet t -> res_all binv (i_endenum fo rf t).
+  Proof.
+    intros H Q. unfold i_endenum. unfold bind at 1.
+    pose proof (i_nested_end_inv t H Q) as X.
+    destruct (i_nested_end fo rf t) as [u t1|k p t1| |]; cbn [res_all] in *; auto.
+    unfold bind at 1. unfold get.
+    destruct (0 <? data_depth t1)%nat; [exact X|].
+    unfold bind at 1. pose proof (bpq_pop_flow b m t1 X) as Y.
+    destruct (pop_flow t1) as [fl t2|k p t2| |]; cbn [res_all] in *; auto.
+    destruct Y as [Y _]. destruct fl as [f|]; [|exact Y]. destruct f; try exact Y.
+    apply i_nested_end_inv_gen. exact Y.
+  Qed.
+
   (* ---------- the table of immediate words ---------- *)
-  (* what a word needs to keep the invariant: nothing; a quiet state (the two words that
-     leave a meta block); or a name that does not clobber an old constant *)
+  (* the situations in which a native immediate word does not keep the invariant *)
+  Definition native_bad (dl : nat) (name : string) (t : state) : bool :=
+    (String.eqb name "const" && const_clobbers dl t) ||
+    (String.eqb name "endenum" && enum_close_bad t) ||
+    ((String.eqb name "%enum-field" || String.eqb name "%enum-field-set") && enum_field_bad t).
+
+  (* what a word needs to keep the invariant: nothing; a quiet state (the words that
+     leave a meta block); or that it is not in one of the situations above *)
   Definition bp_word (name : string) (w : M unit) : Prop :=
-    forall t, binv t -> quiet t ->
-      (name = "const"%string -> const_clobbers (length (dict b)) t = false) ->
-      res_all binv (w t).
+    forall t, binv t -> quiet t -> native_bad (length (dict b)) name t = false -> res_all binv (w t).
 
   Lemma bp_word_of name w : bp w -> bp_word name w.
   Proof. intros H t Ht _ _. apply H. exact Ht. Qed.
@@ -493,10 +665,13 @@ Section Builder.
                             | apply bp_i_def_begin | apply bp_i_def_end | apply bp_i_late
                             | apply bp_i_immediate | apply bp_i_local | apply bp_i_var | apply bp_i_setvar
                             | apply bp_i_nested_begin | apply bp_i_do | apply bp_i_loop
-                            | apply bp_i_foreach | apply bp_i_defined ]
+                            | apply bp_i_foreach | apply bp_i_defined | apply bp_i_enum ]
                     | (intros t Ht Q _; apply i_nested_end_inv; assumption)
                     | (intros t Ht Q _; apply i_nested_inject_inv; assumption)
-                    | (intros t Ht _ C; apply i_const_inv; [assumption | apply C; reflexivity]) ]
+                    | (intros t Ht _ C; apply i_const_inv; [assumption | exact (proj1 (orb_false_elim _ _ (proj1 (orb_false_elim _ _ C))))])
+                    | (intros t Ht Q _; apply i_endenum_inv; assumption)
+                    | (intros t Ht Q C; apply i_enum_field_inv; [assumption | assumption | exact (proj2 (orb_false_elim _ _ C))])
+                    | (intros t Ht Q C; apply i_enum_field_set_inv; [assumption | assumption | exact (proj2 (orb_false_elim _ _ C))]) ]
             | ]).
     apply Forall_nil.
   Qed.
